@@ -205,6 +205,8 @@ def sub_var_to_this(inp, limit=128):
     model = astx.to_model(a)
     if astx.binds(a, alias):
         return 'captured-excluded'
+    if astx.mentions_var(a, alias) and alias not in astx.message_aliases(a):
+        return 'not-used-as-a-message'  # a bare primitive variable is not an alias of a message
     subst = lambda m: mast.map_expr(m, lambda n: ('this',) if n == ('var', alias) else n)  # noqa: E731
     st, r = core.guarded(rw.replace_var_with_this, a, alias)
     if st == 'exc':
@@ -347,6 +349,37 @@ def gen_event_alias(ch):
     return {'topic': topic, 'alias': alias, 'f': f}
 
 
+DEG_THIS = {'fields': {'x': ('num', 'int32'), 'b': ('bool',), 'xs': ('arr', ('num', 'int32'), -1), 'm': ('msg', {'fields': {'x': ('num', 'int32')}, 'consts': {}})}, 'consts': {}}
+
+
+def degenerate_cases():
+    """Roots that are themselves a reference, a literal or a one-node term: the replacement must act on the root too."""
+    texts = ['@A', '@B', '@A.x', '@B.x', '@A.m.x', 'x', 'b', 'm.x', 'xs[0]', '@A.xs[@B.x]', '1', 'True', '"a"', '-x', 'not b', '{x, 1}', '[x to 2]',
+             'len(xs)', 'abs(@A.x)', '@A.x + @B.x', 'x in {@A.x}', 'forall i in xs: @i > @A.x', 'forall i in @A.xs: @i > x']
+    for t in texts:
+        for kind in ('expression', 'condition'):
+            yield {'kind': kind, 'text': t, 'this': DEG_THIS, 'aliases': {'A': DEG_THIS, 'B': DEG_THIS}}
+
+
+def run_degenerate(ctx):
+    for inp in degenerate_cases():
+        for alias in ('A', 'B', 'Zq'):
+            case = dict(inp, alias=alias)
+            try:
+                r1 = sub_var_to_this(case, 64)
+            except Violation as v:
+                ctx.report(v)
+                r1 = 'violation'
+            ctx.case(('deg-v2t', inp['kind'], inp['text'], alias), r1 in ('deep', 'shallow'), 'degenerate:var_to_this:' + str(r1))
+        try:
+            r2 = sub_this_to_var(inp, 64)
+        except Violation as v:
+            ctx.report(v)
+            r2 = 'violation'
+        ctx.case(('deg-t2v', inp['kind'], inp['text']), r2 in ('deep', 'shallow'), 'degenerate:this_to_var:' + str(r2))
+    ctx.exhaustive['degenerate-roots'] = True
+
+
 def shard(ctx, shard_no, nshards, n):
     limit = 64 if ctx.tier == 'quick' else 192
 
@@ -368,7 +401,12 @@ def shard(ctx, shard_no, nshards, n):
 
 
 def run(ctx):
+    run_degenerate(ctx)
     if ctx.tier == 'quick':
-        core.run_sharded(ctx, __name__, 'shard', 1, (700,))
+        core.run_sharded(ctx, __name__, 'shard', 1, (1000,))
     else:
         core.run_sharded(ctx, __name__, 'shard', getattr(ctx, 'shards_override', None) or 16, (3000,))
+
+
+def extra_evidence(ctx):
+    return {'exhaustive': False, 'exhaustive_note': 'only the small table of degenerate roots is enumerated completely'}
